@@ -43,7 +43,11 @@ def run(tier, seed):
                 # one), the instance abandoned right away or one unit later (the work since the checkpoint is lost and redone)
                 ('C08_outl_mem', om.sample(om.family(4, 3), 300, seed + 1), om.oracles(3), crash_sets(4, 1) + [(0, 1), (1, 2), (0, 2, 3)], 'mem', 0),
                 ('C08_outl_mem_late', om.sample(om.family(4, 3), 300, seed + 2), om.oracles(3), crash_sets(4, 1) + [(0, 2), (1, 3)], 'mem', 1),
-                ('C08_outl_pfile_late', om.sample(om.family(4, 3), 150, seed + 3), om.oracles(3), crash_sets(3, 1) + [(0, 2)], 'pfile', 1)]
+                ('C08_outl_pfile_late', om.sample(om.family(4, 3), 150, seed + 3), om.oracles(3), crash_sets(3, 1) + [(0, 2)], 'pfile', 1),
+                # the same checkpoint loaded several times in a row: every restored instance runs on for a unit (or two) and is abandoned
+                # too; what it did (in-place updates of the context included) must not have reached the checkpoint that is kept
+                ('C08_outl_mem_reload', om.sample(om.family(4, 3), 300, seed + 5), om.oracles(3), crash_sets(4, 1) + [(0, 2)], 'mem', 0, 1),
+                ('C08_outl_reload2', om.sample(om.family(4, 3), 150, seed + 6), om.oracles(3), crash_sets(3, 1) + [(0, 3)], 'pickle', 2, 2)]
     else:
         mc = [dict(name='C08_proc', progs=C.fam(progs), plans=save_plans((1, 2, 3, 4, 5)), alphabet=alpha, k=5, invariants=PROC_INV)]
         rp = [dict(name='C08_proc_%s' % m, progs=C.fam(progs), plans=save_plans((1, 2, 3, 4, 5)), alphabet=alpha, k=3, run_kw=rk(m))
@@ -57,19 +61,24 @@ def run(tier, seed):
                 ('C08_outl_mem', om.sample(om.family(4, 3), 800, seed + 1), om.oracles(4), crash_sets(5, 2), 'mem', 0),
                 ('C08_outl_mem_late', om.sample(om.family(4, 3), 800, seed + 2), om.oracles(4), crash_sets(5, 2), 'mem', 1),
                 ('C08_outl_mem_late2', om.sample(om.family(4, 3), 400, seed + 4), om.oracles(4), crash_sets(5, 2), 'mem', 2),
-                ('C08_outl_pfile_late', om.sample(om.family(4, 3), 400, seed + 3), om.oracles(4), crash_sets(5, 2), 'pfile', 1)]
+                ('C08_outl_pfile_late', om.sample(om.family(4, 3), 400, seed + 3), om.oracles(4), crash_sets(5, 2), 'pfile', 1),
+                ('C08_outl_mem_reload', om.sample(om.family(4, 3), 800, seed + 5), om.oracles(4), crash_sets(5, 2), 'mem', 0, 2),
+                ('C08_outl_mem_late_reload', om.sample(om.family(4, 3), 600, seed + 7), om.oracles(4), crash_sets(5, 2), 'mem', 1, 1),
+                ('C08_outl_pfile_reload', om.sample(om.family(4, 3), 300, seed + 8), om.oracles(4), crash_sets(5, 1), 'pfile', 0, 2),
+                ('C08_outl_reload2', om.sample(om.family(4, 3), 600, seed + 6), om.oracles(4), crash_sets(5, 2), 'yaml', 2, 2)]
     mc.append(dict(pp, invariants=['C07_SaveLoadSave']))
     rp.append(dict(pp, run_kw=rk('pickle')))
     # outlines: TLC (stepper save/load inside the run) + every behaviour with real checkpoint/abandon/restore
     viol = 0
     ostates = ogen = oreplayed = 0
     osumm, osamples = [], []
-    for name, outlines, oracles, crashes, medium, lag in outl:
-        r = outline_check.model_and_replay(name, outlines, oracles, crash_sets=crashes, invariants=OUT_INV, medium=medium, lag=lag)
+    for name, outlines, oracles, crashes, medium, lag, *more in outl:
+        reloads = more[0] if more else 0
+        r = outline_check.model_and_replay(name, outlines, oracles, crash_sets=crashes, invariants=OUT_INV, medium=medium, lag=lag, reloads=reloads)
         res = r['tlc']
         ostates += res.distinct
         ogen += res.generated
-        osumm.append({'instance': name, 'outlines': len(outlines), 'oracles': len(oracles), 'crash_sets': len(crashes), 'medium': medium, 'lag': lag,
+        osumm.append({'instance': name, 'outlines': len(outlines), 'oracles': len(oracles), 'crash_sets': len(crashes), 'medium': medium, 'lag': lag, 'reloads': reloads,
                       'behaviours': r['behaviours'], 'mismatches': len(r['mismatches']), 'tlc_s': round(r['tlc_s'], 1),
                       'replay_s': round(r.get('replay_s', 0), 1)})
         if res.violated:
@@ -85,9 +94,9 @@ def run(tier, seed):
         for key, why, got in r['mismatches'][:5]:
             oi, ri, ci = key
             path = core_check.write_replay(PID, 'outline', {'kind': 'outline-mismatch', 'outline': outlines[oi - 1], 'oracle': oracles[ri - 1],
-                                                            'crash_at': list(crashes[ci - 1]), 'medium': medium, 'lag': lag, 'why': why,
+                                                            'crash_at': list(crashes[ci - 1]), 'medium': medium, 'lag': lag, 'reloads': reloads, 'why': why,
                                                             'expected_units': r['expected'][key][0], 'expected_result': r['expected'][key][1], 'got': got})
-            print('MISMATCH outline=%s oracle=%s crash_at=%s medium=%s lag=%d: %s' % (json.dumps(outlines[oi - 1]), oracles[ri - 1], list(crashes[ci - 1]), medium, lag, why))
+            print('MISMATCH outline=%s oracle=%s crash_at=%s medium=%s lag=%d reloads=%d: %s' % (json.dumps(outlines[oi - 1]), oracles[ri - 1], list(crashes[ci - 1]), medium, lag, reloads, why))
             print('VIOLATION property=%s replay=%s' % (PID, path))
         viol += len(r['mismatches'])
         keys = sorted(k for k in r['expected'] if crashes[k[2] - 1])
@@ -102,7 +111,7 @@ def run(tier, seed):
                                      'checkpoints are taken at state entries (ENTERED_STATE callback) and at quiescent points; the abandoned instance is dropped'],
         rule='process programs: every placement of <=K save/restore/resume actions plus a checkpoint at the k-th state entry, several restores in a row; '
              'outlines: every crash set of <=M unit boundaries for every (outline, oracle); checkpoints carried by pickle / YAML, or kept by '
-             'InMemoryPersister / PicklePersister, the instance abandoned 0, 1 or 2 units after the checkpoint',
+             'InMemoryPersister / PicklePersister, the instance abandoned 0, 1 or 2 units after the checkpoint, the same checkpoint loaded up to three times in a row',
         extra_violations=viol,
         extra_cov={'outline_runs': osumm, 'outline_samples': osamples, 'outline_states': ostates, 'outline_behaviours_on_impl': oreplayed})
 
@@ -114,7 +123,7 @@ def replay(path):
         logging.disable(logging.CRITICAL)
         from .. import outline_real
         got = outline_real.run_outline(rec['outline'], rec['oracle'], crash_at=rec.get('crash_at', ()), medium=rec.get('medium', 'pickle'),
-                                       lag=rec.get('lag', 0), loaders=rec.get('loaders', 'default'))
+                                       lag=rec.get('lag', 0), loaders=rec.get('loaders', 'default'), reloads=rec.get('reloads', 0))
         print('expected:', rec['expected_units'], rec['expected_result'])
         print('got     :', got)
         return 0 if (got['units'], got['result']) == (rec['expected_units'], rec['expected_result']) else 1
